@@ -274,10 +274,30 @@ pub fn run(r: &Report) {
                 if i % 23 == 0 {
                     r.sample(sub, json!({"type": e.name, "encodings": encs}));
                 }
+                // near-miss shapes: one element / byte / entry more or fewer, neighbouring major type or tag
+                let mut c2 = Counters { prefix_evals: 0, evals: 0, nontrivial: 0, outcomes: BTreeMap::new() };
+                let mut n2 = 0u64;
+                let mut seen = std::collections::HashSet::new();
+                for v in (e.values)() {
+                    let model = v.model();
+                    if model.to_bytes().len() > 48 {
+                        continue;
+                    }
+                    for miss in near_misses(&model) {
+                        if seen.insert(miss.clone()) {
+                            check_encoding(r, "C-near-miss-shapes", std::slice::from_ref(&op), &miss, &mut c2, false);
+                            n2 += 1;
+                        }
+                    }
+                }
+                r.add("C-near-miss-shapes", c2.evals, c2.nontrivial);
+                r.add_states("C-near-miss-shapes", n2, c2.evals);
+                r.outcomes("C-near-miss-shapes", &c2.outcomes);
             },
             crate::hang_handler(r.property.clone()),
         );
     }
+    r.space("C-near-miss-shapes", true, "every small-domain value of every type of the table (encoding <= 48 bytes): all single near-miss shapes (one string byte / array element / map entry more or fewer, array<->map, bytes<->text, neighbouring major type, bumped or removed tag, null<->undefined, wider float), decoded as that type; the reference relation decides must-ok / must-err / may", 2);
     r.assume("verdict 'may' (API-documented restriction or leniency: definite-only strings/tuples, skipped surplus elements, simple() on false/true/null/undefined) accepts an error or exactly the data-model value");
     let _ = Shape::Unit;
 }
